@@ -1,5 +1,5 @@
 import Qv.Driver.Json
-import Qv.Model.Brute
+import Qv.Model.BruteEntry
 /-! Driver handlers for C09 (brute-force solvers).  Trusted glue: JSON in / out only. -/
 namespace Qv.Drv.C09
 open Lean Qv Qv.Brute
@@ -36,6 +36,20 @@ def validOfJson (j : Json) : Except String (Assign → Bool) := do
   | "excl" => do
     let e ← j.getObjVal? "x" >>= pairsOfJson
     pure (fun x => !sameDict e x)
+  | "only" => do
+    let e ← j.getObjVal? "x" >>= pairsOfJson
+    pure (fun x => sameDict e x)
+  | "subpar" => do
+    -- parity of the number of ones among the listed labels (labels the dict lacks are ignored)
+    let ids ← j.getObjVal? "ids" >>= natList
+    let r ← j.getObjVal? "r" >>= Json.getNat?
+    pure (fun x => (x.filter (fun p => ids.contains p.1 && p.2 == 1)).length % 2 == r)
+  | "pair" => do
+    -- `(x.get(a) == x.get(b)) == eq`
+    let a ← j.getObjVal? "a" >>= Json.getNat?
+    let b ← j.getObjVal? "b" >>= Json.getNat?
+    let eq ← j.getObjVal? "eq" >>= Json.getBool?
+    pure (fun x => (aget? x a == aget? x b) == eq)
   | "table" => do
     let xs ← (← j.getObjVal? "xs" >>= Json.getArr?).toList.mapM pairsOfJson
     pure (fun x => xs.any (fun e => sameDict e x))
@@ -50,7 +64,7 @@ def bookOfJson (j : Json) : Except String (Option Book) :=
       pure (i, l))
     pure (some ⟨n, rm⟩)
 
-def solJson : Sol → Json
+def solJson : Brute.Sol → Json
   | .one x => Json.mkObj [("one", assignJson x)]
   | .many xs => Json.mkObj [("many", Json.arr (xs.map assignJson).toArray)]
 
@@ -81,6 +95,19 @@ def handleBrute (j : Json) : Except String Json := do
   pure (Json.mkObj [("res", outJson (solve fn D allS valid order)),
                     ("alt", outJson (solve fn D (!allS) valid order))])
 
+/-- op "problem": `Problem.solve_bruteforce` between `to_qubo` and `convert_solution` — the padded dict and the
+assignment(s) `solve_qubo_bruteforce` returns on it, in the requested mode and with `all_solutions` -/
+def handleProblem (j : Json) : Except String Json := do
+  let Q ← j.getObjVal? "terms" >>= polyOfJson
+  let N ← j.getObjVal? "n" >>= Json.getNat?
+  let allS ← j.getObjVal? "all" >>= Json.getBool?
+  let order := ((keyLabels (padQ Q N)).toArray.qsort (· < ·)).toList
+  let sol (r : Except Err Brute.Sol) : Json := match r with
+    | .ok s => solJson s
+    | .error e => errJson e
+  pure (Json.mkObj [("res", sol (problemSolve Q N allS order)), ("many", sol (problemSolve Q N true order)),
+                    ("pad", canonJson (padQ Q N))])
+
 def handlersC09 : List (String × (Lean.Json → Except String Lean.Json)) :=
-  [("brute", handleBrute)]
+  [("brute", handleBrute), ("problem", handleProblem)]
 end Qv.Drv.C09
